@@ -10,6 +10,11 @@ CLAIMED = {
          "No counterexample among the generated scenarios: after every Sim::step the harness checks Sim::elapsed == tick*steps and every clock reading taken inside host code against the offset/epoch identities, per-host monotonicity, the window of the step in progress and exact firing of whole-millisecond tokio timers, with crash/bounce and late registration interleaved. Generated search cannot prove absence; the evidence reports how many scenarios and timer observations were checked.",
          "Trusts tokio's paused clock; ticks that are not whole milliseconds are generated as a separate class whose window/timer clauses are excluded because of known finding F-C05-1 (listed in known_findings.json).",
          "DESIGN.md §6 C05"),
+ "C11": ("exploration",
+         "property-based testing (proptest) of generated client/host outcome mixes against a model that enumerates the admissible result set of Sim::run / step loops",
+         "No counterexample among generated mixes of clients and hosts finishing Ok/Err/never/panicking (main future or spawned task) at generated virtual times over 1-3 register-then-run phases, with run() and step() loops, crashes and random order: the observed result (Ok / which software error / duration error / panic) and Sim::elapsed always lay in the admissible set computed by an independent model, and background tasks of finished or crashed software never advanced again.",
+         "Boundary finishes and same-step failures are admitted in either order, as the property text allows; the step at which a panic surfaced is not observable; scenarios stop at the first error.",
+         "DESIGN.md §6 C11"),
 }
 
 PENDING_REASON = "check not built yet in this round (planned, see DESIGN.md §6); not claimed until its check exists and has been shown silent on the unchanged tree"
